@@ -50,8 +50,15 @@ structure St where
   omodel : OState     -- oracle state following the model's observations
   oimpl  : OState     -- oracle state following the implementation's observations
 
+/-- variant `seed <id>`: the queue starts with one entry numbered `id` (a session that has already numbered that many
+stanzas - numbers around 2^31 and 2^32 included: the sequence numbers are Go ints, not 32-bit counters) -/
 def init (fields : List String) : St :=
-  ⟨fields == ["nil"], ⟨[], 0⟩, ⟨[], []⟩, ⟨[], []⟩⟩
+  match fields with
+  | ["seed", n] =>
+    let id := n.toNat?.getD 1
+    let q : Q := [⟨id, "seed"⟩]
+    ⟨false, ⟨q, id⟩, ⟨["seed"], q⟩, ⟨["seed"], q⟩⟩
+  | _ => ⟨fields == ["nil"], ⟨[], 0⟩, ⟨[], []⟩, ⟨[], []⟩⟩
 
 /-- `Push(Peek())`: pushes a copy of the head's stanza; nothing on an empty queue -/
 def resolve (st : St) (fields : List String) : Option Op :=
